@@ -280,8 +280,14 @@ def installed(m):
     """what pypdf calls after patch_pypdf_fallback_aes(): the bindings in the fallback provider module, in the provider
     package and in pypdf._encryption (which imported the names earlier) against the reference"""
     fb = _provider()
-    if fb is None or not m.patch_pypdf_fallback_aes():
+    if fb is None:
         return None
+    try:
+        applied = m.patch_pypdf_fallback_aes()
+    except Exception as e:  # noqa
+        applied = f"raised {type(e).__name__}: {e}"
+    if applied is not True:
+        return ("patch_pypdf_fallback_aes", {"pypdf provider": "local_crypt_fallback (no crypto library installed)"}, "True (AES installed)", repr(applied))
     import pypdf._crypt_providers as providers
     import pypdf._encryption as enc
     key, iv = bytes(range(3, 19)), bytes(range(100, 116))
